@@ -188,6 +188,18 @@ fn judge(url: &str, want: &Want, check_open_gate: bool) -> Option<(String, Strin
         (Want::AnyErr, Ok(g)) => Some(("url:accepted-unrepresentable".into(), format!("{} -> {:?}", url, g))),
         (Want::Err(w), Err(e)) => {
             if err_name(e) == *w {
+                // the secure-only entry point reports the same specific error (for an amqp://
+                // URL that is also unacceptable as a secure one, which of the two errors wins is
+                // left open)
+                let scheme = url.split("://").next().unwrap_or("").to_ascii_lowercase();
+                if check_open_gate && scheme != "amqp" {
+                    match Connection::open(url) {
+                        Err(e2) if err_name(&e2) == *w => {}
+                        other => {
+                            return Some((format!("url:secure-open-wrong-error:{}", w), format!("Connection::open({}) -> {:?}, expected {}", url, other.map(|_| "Ok(connection)").map_err(|e| err_name(&e)), w)));
+                        }
+                    }
+                }
                 None
             } else {
                 Some((format!("url:wrong-error:{}", w), format!("{} -> {:?}, expected {}", url, err_name(e), w)))
